@@ -266,6 +266,13 @@ def _g_complete_any(w):
     return d is not None and bool(d.get("is_complete"))
 
 
+@guard("complete_demoted")
+def _g_complete_demoted(w):
+    """Complete and the role given up; the completing node may still be running (its batch is still RUNNING)."""
+    d = _cluster_state(w)
+    return d is not None and bool(d.get("is_complete")) and d.get("submitter") is None
+
+
 @guard("always")
 def _g_always(w):
     return True
@@ -365,7 +372,7 @@ def _acyclic(bb):
     return all(visit(u) for u in range(n))
 
 
-NAMES = "abcdefgh"
+NAMES = "abcdefghijklmnop"
 
 
 def jobs_from_graph(bb, cancel=None, est=None, groups=None):
@@ -400,6 +407,7 @@ REP = {
     "fan5": [[], [0], [0], [0], [0]],
     # a flagged job with two blockers behind a backlog of unblocked jobs
     "joinbacklog5": [[], [], [], [], [0, 1]],
+    "indep11": [[] for _ in range(11)],
     "indep3": [[], [], []],
     "indep4": [[], [], [], []],
 }
